@@ -19,6 +19,7 @@
 (*                       of a rule (or the substituted rule) raised         *)
 (*   conv-commute      : instantiate(convert(rule), convert(sigma)) #      *)
 (*                       convert(rule sigma)                               *)
+(*   llvm-verdict / llvm-claims : the same through get_proof_hints        *)
 (*   hints-verdict / hints-claims : ExecutionProofExp.from_proof_hints on  *)
 (*                       the same trace (with the post-configurations the  *)
 (*                       trace reports, possibly stale) disagrees with the *)
@@ -86,6 +87,10 @@ CheckCase(i) ==
        ELSE IF Len(c.steps) = 0 THEN ""
        ELSE IF (c.hints_out = "ok") # allok THEN "hints-verdict"
        ELSE IF allok /\ ExpSeq(c.hints_claims) # ExpSeq(c.steps[Len(c.steps)].claims_after) THEN "hints-claims"
+       \* the same trace as an LLVMRewriteTrace (rule events, configurations, interleaved function / hook events) through
+       \* get_proof_hints: nothing may be dropped or reordered
+       ELSE IF (c.llvm_out = "ok") # allok THEN "llvm-verdict"
+       ELSE IF allok /\ ExpSeq(c.llvm_claims) # ExpSeq(c.steps[Len(c.steps)].claims_after) THEN "llvm-claims"
        ELSE ""
 INSTANCE TraceBlocks WITH NCases <- Len(Cases), Check <- CheckCase
 =============================================================================
